@@ -47,7 +47,8 @@ vars  == <<cvars, bvars, tvars, cmap, viol>>
 \*   prep                   : PREPARE (session state that is NOT undone by ROLLBACK)
 \*   slow                   : statement that runs longer than the pool's statement_timeout
 FirstKinds == {"begin", "stmt", "fail", "set", "prep", "copyin", "copyin2", "big", "slow"}
-Kinds == FirstKinds \cup {"commit", "copydone"}
+\*   copyfail               : CopyFail - the COPY ends with an ErrorResponse instead of CommandComplete
+Kinds == FirstKinds \cup {"commit", "copydone", "copyfail"}
 
 Init ==
   /\ pc = [c \in Clients |-> "off"] /\ held = [c \in Clients |-> NONE]
@@ -113,7 +114,7 @@ CheckoutTimeout(c) ==
 \* reads = number of recv() calls the pooler makes for this request.
 TxAfter(s, k) ==
   IF tCopy[s] = "in" /\ k # "copydone"
-  THEN (IF tTx[s] = "I" THEN "I" ELSE "E")      \* non-COPY message aborts COPY IN with an error
+  THEN (IF tTx[s] = "I" THEN "I" ELSE "E")      \* CopyFail or a non-COPY message ends COPY IN with an error
   ELSE CASE k = "begin"  -> IF tTx[s] = "I" THEN "T" ELSE tTx[s]
          [] k = "commit" -> "I"
          [] k = "fail"   -> IF tTx[s] = "I" THEN "I" ELSE "E"
@@ -136,7 +137,7 @@ Exec(c, s, k, loops) ==
       \* while COPY IN started by copyin2 is open, tUnread marks "continuation pending"
       unread  == IF k = "copyin2" /\ ncopy = "in" THEN TRUE
                  ELSE IF two THEN ~loops
-                 ELSE IF k = "copydone" THEN FALSE
+                 ELSE IF k \in {"copydone", "copyfail"} THEN FALSE
                  ELSE IF tCopy[s] = "in" THEN FALSE
                  ELSE tUnread[s]
   IN /\ viol' = IF handoff /\ unclean
@@ -162,7 +163,10 @@ Exec(c, s, k, loops) ==
                                   ELSE IF two /\ ~loops THEN @
                                   ELSE IF "failed_tx_counts_as_idle" \in Dev THEN ntx = "T"
                                   ELSE ntx # "I"]
-     /\ bCopy' = [bCopy EXCEPT ![s] = IF two /\ ~loops THEN TRUE ELSE ncopy = "in"]
+     \* an ErrorResponse ends COPY like CommandComplete does (deviation error_keeps_copy_mode: it does not)
+     /\ bCopy' = [bCopy EXCEPT ![s] = IF two /\ ~loops THEN TRUE
+                                      ELSE IF "error_keeps_copy_mode" \in Dev /\ tCopy[s] = "in" /\ k # "copydone" THEN @
+                                      ELSE ncopy = "in"]
      /\ bData' = [bData EXCEPT ![s] = two /\ ~loops]
      \* cleanup_state: marked on every SET (deviation: only when believed outside a transaction)
      /\ dirty' = [dirty EXCEPT ![s] = @ \/ (k = "set" /\ tCopy[s] = "no" /\ tTx[s] # "E"
@@ -174,7 +178,7 @@ Exec(c, s, k, loops) ==
 ReleaseNow(s, k) ==
   /\ (TxMode \/ "session_mode_releases" \in Dev)
   /\ ~bTx'[s]
-  /\ IF k = "copydone"
+  /\ IF k \in {"copydone", "copyfail"}
      THEN ("copydone_no_copy_check" \in Dev) \/ ~bCopy'[s]
      ELSE ~bCopy'[s]
 
@@ -182,14 +186,14 @@ Forward(c) ==
   /\ pc[c] = "fwd" /\ pend[c] # "slow"
   /\ LET s == held[c]
          k == pend[c]
-         loops == (k # "copydone") \/ ("copydone_single_recv" \notin Dev)
+         loops == (k \notin {"copydone", "copyfail"}) \/ ("copydone_single_recv" \notin Dev)
      IN /\ Exec(c, s, k, loops)
         /\ pc' = [pc EXCEPT ![c] = IF ReleaseNow(s, k) THEN "cleanup" ELSE "intx"]
   /\ UNCHANGED <<held, pend, nmsg, alive, idle, bad, cmap>>
 
 NextMsg(c, k) ==
   /\ pc[c] = "intx" /\ nmsg[c] < MaxMsgs /\ k \in Kinds
-  /\ (k = "copydone" => bCopy[held[c]])
+  /\ (k \in {"copydone", "copyfail"} => bCopy[held[c]])
   /\ pend' = [pend EXCEPT ![c] = k] /\ nmsg' = [nmsg EXCEPT ![c] = @ + 1]
   /\ pc' = [pc EXCEPT ![c] = "fwd"]
   /\ UNCHANGED <<held, bvars, tvars, cmap, viol>>
@@ -325,6 +329,11 @@ NoLeak ==
       /\ \A s \in Conns : alive[s] => idle[s]
       /\ \A c \in Clients : held[c] = NONE
 
+\* C04: in transaction mode the pooler does not sit on a connection for a client whose transaction is over
+\* (a client that merely waits for its next message holds nothing unless it is inside a transaction or COPY).
+HoldsOnlyInTx ==
+  TxMode => \A c \in Clients : pc[c] = "intx" => (tTx[held[c]] # "I" \/ tCopy[held[c]] # "no")
+
 \* C10: the cancel map names exactly the connection a client holds.
 MapSound == \A c \in Clients : cmap[c] # NONE => held[c] = cmap[c]
 
@@ -335,7 +344,7 @@ BeliefSound ==
 Deviations == {"putback_reuses_unclean", "copydone_single_recv", "copydone_no_copy_check", "set_in_tx_not_marked",
                "reset_before_rollback", "timeout_keeps_connection", "failed_tx_counts_as_idle", "prepare_not_marked",
                "session_mode_releases", "no_rollback_at_checkin", "no_reset_at_checkin", "map_kept_after_release",
-               "early_return_leaks_guard"}
+               "early_return_leaks_guard", "error_keeps_copy_mode"}
 
 Quiescent == \A c \in Clients : pc[c] \in {"off", "idle", "gone"}
 
